@@ -7,7 +7,7 @@
 From Coq Require Import ZArith List Bool String Lia.
 From Coq.Strings Require Import Byte.
 From DRX Require Import Proofs.LingoNestFacts Py.PyBytes Py.PyStr Py.PyString Py.Val Model.LingoAst Model.LingoGen Model.LingoOps
-  Spec.SpecLingo Spec.SpecText Spec.SpecJs Spec.SpecNest Spec.SpecFor
+  Gen.Gen_Lingo Spec.SpecLingo Spec.SpecText Spec.SpecJs Spec.SpecNest Spec.SpecFor
   Proofs.PyBytesFacts Proofs.LingoTextFacts Proofs.LingoNestText Proofs.LingoNestJs Proofs.LingoNestForText.
 Import ListNotations.
 Open Scope Z_scope.
@@ -48,6 +48,9 @@ Fixpoint dec_e (fuel : nat) (v : val) : option expr :=
       match dec_fam fm, get_n pid, dec_e f a with Some fm', Some p, Some a' => Some (EObj fm' p a') | _, _, _ => None end
     | VL [VZ 15; pid; it; mn] =>
       match get_n pid, dec_e f it, dec_e f mn with Some p, Some i, Some m => Some (EMenu p i m) | _, _, _ => None end
+    | VL [VZ 16; VZ k; i] =>
+      match (if k =? 0 then Some TSpecial else if k =? 1 then Some TDateTime else if k =? 2 then Some TSystem else None), get_n i with
+      | Some k', Some i' => Some (EThe k' i') | _, _ => None end
     | _ => None
     end
   end.
@@ -123,6 +126,7 @@ Fixpoint text_okb (en : env) (e : expr) {struct e} : bool :=
   | EPList items => Nat.even (List.length items) && forallb (text_okb en) items
   | EObj _ _ x => text_okb en x
   | EMenu _ it mn => text_okb en it && text_okb en mn
+  | EThe TSystem i => starts_with "_" (assoc_or (nth i (the_table TSystem) "") SYSTEM_PROPERTIES)
   | _ => true
   end.
 Fixpoint js_okb (en : env) (e : expr) {struct e} : bool :=
